@@ -533,6 +533,11 @@ func (g *gm) checkRelated(start, pred string, inv bool, scope []string, limits [
 		kit.S().Exclude("F04")
 		return
 	}
+	if inv {
+		kit.S().AddExtra("incoming_queries_compared", 1)
+	} else {
+		kit.S().AddExtra("outgoing_queries_compared", 1)
+	}
 	var got map[string]bool
 	var dup string
 	var err error
